@@ -1,7 +1,7 @@
 """C09 — shape-based simplifications hold for every runtime binding of symbolic dims."""
 import re
 
-MODULES = ["contracts.c03_folding", "contracts.c09_expand", "contracts.c05_basic", "contracts.c09_reshape"]
+MODULES = ["contracts.c03_folding", "contracts.c09_expand", "contracts.c05_basic", "contracts.c09_reshape", "contracts.c05_irutils"]
 HEAD = "import sys\nsys.path.insert(0, '/verif')\nfrom replay_lib.opt_native import main\n"
 
 
